@@ -942,3 +942,42 @@ pub fn offer_spec(alt: Option<(usize, u16)>, at: usize, id: u16) -> Option<(usiz
         }
     }
 }
+
+/// The pending primary error with its position, in full (recording error type only).
+pub fn alt_full<'p, I, C>(inp: &mut InputRef<'static, 'p, I, X<VErr, C>>) -> Option<(usize, VErr)>
+where
+    I: Input<'static, Cursor = usize>,
+    VErr: Error<'static, I>,
+    C: 'static,
+{
+    inp.errors.alt.as_ref().map(|a| (a.pos, a.err))
+}
+
+/// Specification of the pending error after a one-token matcher built by the library failed at
+/// `pos0` (entry state `s0`): priority rule + truthful span + truthful `found`.
+/// Returns (priority rule holds, span is the offending token / empty at end, found is truthful).
+pub fn prim_alt_spec(s0: &S0, alt: Option<(usize, VErr)>, tok_here: Option<u32>) -> (bool, bool, bool) {
+    let at = s0.pos;
+    let end = if at < s0.len { at + 1 } else { at };
+    match (s0.alt, alt) {
+        (_, None) => (false, false, false),
+        (None, Some((p, e))) => (
+            p == at && e.id == 0 && e.merges == 0,
+            e.start == at && e.end == end,
+            e.found == tok_here,
+        ),
+        (Some((ap, aid)), Some((p, e))) => {
+            if ap > at {
+                (p == ap && e.id == aid && e.merges == 0 && e.replaced == 0, true, true)
+            } else if ap == at {
+                (p == ap && e.id == aid && e.merges == 1 && e.merged_id == 0, true, true)
+            } else {
+                (
+                    p == at && e.id == 0 && e.replaced == 1,
+                    e.start == at && e.end == end,
+                    e.found == tok_here,
+                )
+            }
+        }
+    }
+}
